@@ -114,28 +114,7 @@ def run_explored(ctx, tier, rng):
             jobs.append(j)
     behs, stats = steps.explore([{k: v for k, v in j.items() if not k.startswith("_")} for j in jobs])
     ctx.add_tlc(stats)
-    n = 0
-    for j in jobs:
-        for b in behs.get(j["id"], []):
-            n += 1
-            ctx.count()
-            ctx.traces()
-            sj = steps.scripted_job(j, b)
-            o, _, _ = predict.try_real(sj)
-            m = predict.norm_model(dict(b, done=[], raw_keys=[]))
-            wit = {"job": sj, "tag": j["_tag"], "explored": {"status": b["status"], "values": b["values"], "calls": [(c["path"], c["dec"]) for c in b["calls"]]},
-                   "observed": o if "rejected" in o else {x: o[x] for x in ("status", "values", "err")}}
-            if "rejected" in o:
-                continue
-            mm = enginecheck.common_mismatch(m, o)
-            if mm:
-                ctx.violation("explored:outcome", wit, mm)
-                continue
-            if predict.per_node(m["calls"]) != predict.per_node(o["calls"]):
-                ctx.violation("explored:invocations", wit, f"per-node invocations {predict.per_node(o['calls'])} differ from the explored behaviour {predict.per_node(m['calls'])}")
-                continue
-            if set(m["values"]) != set(o["values"]):
-                ctx.violation("explored:output-keys", wit, f"outputs {sorted(o['values'])}, explored behaviour {sorted(m['values'])}")
+    n = steps.replay_explored(ctx, jobs, behs)
     ctx.bump("tlc_explored_behaviours_replayed", n)
 
 
